@@ -29,6 +29,11 @@ type enrichCase struct {
 	Runs [][]docHop           `json:"runs"`
 	Dest []string             `json:"dest"` // destination address spec per run
 	DNS  map[string]DNSScript `json:"dns"`  // by canonical address string
+	// Flaky: for these addresses only the first lookup behaves as scripted; every later one fails 20 ms after it was
+	// asked (a duplicate of the address in the same batch is looked up concurrently: one success, one late failure)
+	Flaky map[string]bool `json:"flaky,omitempty"`
+	// Twice: the document is enriched a second time a minute later; what was stored must be served without asking
+	Twice bool `json:"twice,omitempty"`
 }
 
 var enrichPool = []string{"", "v4:10.0.0.1", "v4:8.8.8.8", "map:8.8.8.8", "v4:198.18.0.1", "v6:2001:db8::1", "v6:2001:db8::2", "map:10.0.0.1", "v4:203.0.113.9", "v6:fd00::9"}
@@ -44,14 +49,23 @@ func checkC18Enrich(t *testing.T, c *enrichCase, rec *Recorder) []Diff {
 	}
 	before, _ := json.Marshal(doc)
 	calls := map[string]int{}
+	callsAfterFirst := map[string]int{}
 	var mu sync.Mutex
 	oldLookup, oldCache := reversedns.LookupAddrFn, cache.Cache
 	defer func() { reversedns.LookupAddrFn, cache.Cache = oldLookup, oldCache }()
 	reversedns.LookupAddrFn = func(ctx context.Context, addr string) ([]string, error) {
 		mu.Lock()
 		calls[addr]++
+		nth := calls[addr]
 		mu.Unlock()
 		s := c.DNS[addr]
+		if c.Flaky[addr] && nth >= 2 {
+			select {
+			case <-time.After(20 * time.Millisecond):
+			case <-ctx.Done():
+			}
+			return nil, errors.New("scripted late failure for " + addr)
+		}
 		if s.DelayMs > 0 {
 			select {
 			case <-time.After(time.Duration(s.DelayMs) * time.Millisecond):
@@ -77,6 +91,15 @@ func checkC18Enrich(t *testing.T, c *enrichCase, rec *Recorder) []Diff {
 		synctest.Test(t, func(t *testing.T) {
 			cache.Cache = gocache.New(5*time.Minute, 0)
 			doc.EnrichWithReverseDns()
+			if c.Twice {
+				mu.Lock()
+				for k, v := range calls {
+					callsAfterFirst[k] = v
+				}
+				mu.Unlock()
+				time.Sleep(time.Minute)
+				doc.EnrichWithReverseDns()
+			}
 		})
 	}()
 	if deadlock != "" {
@@ -93,17 +116,31 @@ func checkC18Enrich(t *testing.T, c *enrichCase, rec *Recorder) []Diff {
 		}
 		return s.Names
 	}
+	// a flaky address answered its first lookup only: an entry whose own (concurrent, duplicate) lookup was a later
+	// one legitimately stays empty in the first enrichment; the second enrichment is served from what was stored
+	flakyOK := func(ip net.IP, got []string) bool {
+		return len(ip) > 0 && c.Flaky[ip.String()] && !c.Twice && len(got) == 0
+	}
 	same := func(a, b []string) bool { return strings.Join(a, "\x00") == strings.Join(b, "\x00") }
+	if c.Twice {
+		// a success that was stored is served until it expires (1 h): no further question for that address, same names
+		for addr, s := range c.DNS {
+			stored := !s.Err && s.DelayMs < 5000 && callsAfterFirst[addr] > 0
+			if stored && calls[addr] != callsAfterFirst[addr] {
+				add("stored-success-requeried", "address %s was resolved successfully in the first enrichment (%d lookups) and asked again %d times a minute later", addr, callsAfterFirst[addr], calls[addr]-callsAfterFirst[addr])
+			}
+		}
+	}
 	distinct := map[string]bool{}
 	outcomes := map[string]bool{}
 	dup := false
 	for i := range doc.Traceroute.Runs {
 		run := &doc.Traceroute.Runs[i]
-		if !same(run.Destination.ReverseDns, want(run.Destination.IPAddress)) {
+		if !same(run.Destination.ReverseDns, want(run.Destination.IPAddress)) && !flakyOK(run.Destination.IPAddress, run.Destination.ReverseDns) {
 			add("dest-names", "run %d destination %v has names %v, resolver returned %v for that address", i, run.Destination.IPAddress, run.Destination.ReverseDns, want(run.Destination.IPAddress))
 		}
 		for j, h := range run.Hops {
-			if !same(h.ReverseDns, want(h.IPAddress)) {
+			if !same(h.ReverseDns, want(h.IPAddress)) && !flakyOK(h.IPAddress, h.ReverseDns) {
 				add("hop-names", "run %d hop %d (%v) has names %v, resolver returned %v for that address", i, j, h.IPAddress, h.ReverseDns, want(h.IPAddress))
 			}
 			if len(h.IPAddress) > 0 {
@@ -161,7 +198,14 @@ func TestC18Enrich(t *testing.T) {
 				s.Err = true
 			}
 			c.DNS[k] = s
+			if !s.Err && oneOf(rt, "dns_"+k+"_flaky", false, false, true) {
+				if c.Flaky == nil {
+					c.Flaky = map[string]bool{}
+				}
+				c.Flaky[k] = true
+			}
 		}
+		c.Twice = rapid.Bool().Draw(rt, "twice")
 		return c
 	}, checkC18Enrich)
 }
